@@ -215,6 +215,12 @@ def r_tree_chain(ck: Checker) -> None:
     body = strip_docstring(g.node.body)
     np_, ap = g.node.args.args[1].arg, g.node.args.args[2].arg
     what = "is_ancestor(node, ancestor) is true iff `ancestor` is (identically) one of get_ancestors(node)"
+    memb = [c for c in walk_body(body) if isinstance(c, ast.Compare) and len(c.ops) == 1 and isinstance(c.ops[0], (ast.In, ast.NotIn))
+            and "get_ancestors(" in norm(c.comparators[0])]
+    if memb:
+        ck.violation("R-TREE-IDENT", g, memb[0], "tree queries compare nodes by identity (twins that are == sit at different positions)",
+                     construct=f"Tree.is_ancestor: {norm(memb[0])} compares nodes by value (membership test uses ==)")
+        return
     sr = search_loop(body)
     bad = None
     if sr.prologue:
